@@ -192,10 +192,11 @@ def main():
     ap.add_argument("--sample-seed", type=int, default=0)
     ap.add_argument("--list", action="store_true")
     ap.add_argument("--only", nargs="*", default=None, help="FILE:LINE filters")
+    ap.add_argument("--anchors-of", default=None, help="enumerate the mutants from this property's anchors, run PROP's check on them")
     ap.add_argument("--rerun", default=None, help="JSON of an earlier sweep: run again the mutants that survived / ended in a harness error there")
     a = ap.parse_args()
     prop = a.prop.upper()
-    muts = enumerate_mutants(prop)
+    muts = enumerate_mutants((a.anchors_of or prop).upper())
     if a.rerun:
         prev = json.load(open(a.rerun))["results"]
         keys = {(r["file"], r["func"], r["op"], r["orig"], r["mutated"]) for r in prev if r["outcome"] != "killed"}
@@ -235,7 +236,7 @@ def main():
             first = next((l.strip() for l in r["lines"] if l.startswith("  oracle=")), "")
             print(f"  {r['outcome']:13s} {r['file']}:{r['line']} [{r['func']}] {r['op']}: {r['orig'][:70]} | {first[:90]} ({r['wall_s']}s)", flush=True)
     os.makedirs(os.path.join(ROOT, "mutants"), exist_ok=True)
-    path = os.path.join(ROOT, "mutants", f"{prop}.json")
+    path = os.path.join(ROOT, "mutants", f"{prop}.json" if not a.anchors_of else f"{prop}-on-anchors-of-{a.anchors_of.upper()}.json")
     old = []
     if os.path.exists(path):
         old = json.load(open(path)).get("results", [])
